@@ -1,9 +1,13 @@
 (* C09 - Events reach exactly the subscribed pools, in order, and are not lost.
-   Property theorems only. *)
+   Property theorems only; each is closed by `exact <lemma>` and followed by
+   Print Assumptions.  Models: SV.C09.Gen_EvTypes (generated class hierarchy and
+   EventTypes table), SV.C09.EvTypes (subtyping), SV.C09.Pool (callbacks,
+   notify, _subscription_types, _acceptEvent, dispatch, _dispatchEvent,
+   handle_rejected; listeners are C10's process records). *)
 From Coq Require Import ZArith List Bool Lia.
 Import ListNotations.
 Require Import SV.Common SV.C10.Listener SV.C10.Proc.
-Require Import SV.C09.Gen_EvTypes SV.C09.EvTypes SV.C09.EvTypesProofs SV.C09.Pool.
+Require Import SV.C09.Gen_EvTypes SV.C09.EvTypes SV.C09.EvTypesProofs SV.C09.Pool SV.C09.PoolProofs.
 Open Scope Z_scope.
 
 (* isinstance on the generated hierarchy: the computable test used by the
@@ -12,3 +16,144 @@ Theorem c09_subtype_decidable :
   forall a b, subtype_b a b = true <-> subtype a b.
 Proof. exact subtype_b_spec. Qed.
 Print Assumptions c09_subtype_decidable.
+
+(* Routing: at every point of every history, an emitted event of class t is
+   offered to pool pi exactly once if pi's configuration names t or one of its
+   superclasses, and not at all otherwise - also when the configuration
+   repeats a type or lists a type together with its supertype. *)
+Theorem c09_routing :
+  forall h maxdig pools maxint gs ops e t pi p,
+  let w := fst (wrun h maxdig (new_world pools maxint gs) ops) in
+  nth_error (w_pools w) pi = Some p ->
+  ev_lookup (w_events w) e = None ->
+  offered_count pi e (snd (emit w e t)) =
+  if existsb (fun T => subtype_b t T) (pl_subs p) then 1%nat else 0%nat.
+Proof. exact routing_always. Qed.
+Print Assumptions c09_routing.
+
+(* the subscription table, the configured types, the buffer sizes and maxint
+   are those of the initial pools throughout *)
+Theorem c09_configuration_static :
+  forall h maxdig pools maxint gs ops,
+  static (fst (wrun h maxdig (new_world pools maxint gs) ops)) = static (new_world pools maxint gs).
+Proof. exact static_always. Qed.
+Print Assumptions c09_configuration_static.
+
+(* Serial numbers: while at most maxint+1 events have received one (counting
+   from a fresh GlobalSerial), no two events share a serial. *)
+Theorem c09_serial_unique :
+  forall h maxdig pools maxint ops,
+  let w := fst (wrun h maxdig (new_world pools maxint (-1)) ops) in
+  Z.of_nat (length (serials (w_events w))) <= maxint + 1 ->
+  forall x y s, In x (w_events w) -> In y (w_events w) ->
+                ei_serial x = Some s -> ei_serial y = Some s -> x = y.
+Proof. exact serial_unique_always. Qed.
+Print Assumptions c09_serial_unique.
+
+(* Pool serials, stepwise: the first time a pool accepts an event it gives it
+   the next number of its own counter (previous + 1 below maxint, 0 after
+   maxint); accepting the same event again (re-buffering) keeps the number and
+   the counter.
+   (The history-level statement is c09_poolserial_monotone below.) *)
+Theorem c09_poolserial_step :
+  forall w pi e head p x,
+  nth_error (w_pools w) pi = Some p -> ev_lookup (w_events w) e = Some x ->
+  let w' := fst (accept_event w pi e head) in
+  exists p' x', nth_error (w_pools w') pi = Some p' /\ ev_lookup (w_events w') e = Some x' /\
+    match ps_lookup (ei_pserials x) pi with
+    | Some s => pl_serial p' = pl_serial p /\ ps_lookup (ei_pserials x') pi = Some s
+    | None => pl_serial p' = new_serial (w_maxint w) (pl_serial p) /\
+              ps_lookup (ei_pserials x') pi = Some (pl_serial p') /\
+              (pl_serial p <> w_maxint w -> pl_serial p' = pl_serial p + 1)
+    end.
+Proof. exact accept_event_poolserial. Qed.
+Print Assumptions c09_poolserial_step.
+
+(* Pool serials over whole histories: while pool pi (constructed fresh) has
+   numbered at most maxint+1 events, the numbers it handed out are exactly
+   0 .. n-1, all different, and its counter is n-1; together with the stepwise
+   statement above (the next first-time acceptance gets counter+1 = n) this is
+   "poolserials increase in the order the pool accepted events". *)
+Theorem c09_poolserial_monotone :
+  forall h maxdig cfgs maxint gs ops pi p,
+  Forall (fun c => snd c = -1) cfgs ->
+  let w := fst (wrun h maxdig (new_world (map pool_of_cfg cfgs) maxint gs) ops) in
+  nth_error (w_pools w) pi = Some p ->
+  Z.of_nat (length (pserials pi (w_events w))) <= maxint + 1 ->
+  pl_serial p = Z.of_nat (length (pserials pi (w_events w))) - 1 /\
+  NoDup (pserials pi (w_events w)) /\
+  forall s, In s (pserials pi (w_events w)) -> 0 <= s <= pl_serial p.
+Proof. exact poolserial_always. Qed.
+Print Assumptions c09_poolserial_monotone.
+
+(* FIFO: a dispatch pass sends the head of the queue, then the next one, ...:
+   what was sent, in order, followed by what remains is the queue as it was.
+   New events enter at the tail, rejected ones at the head (c09_overflow). *)
+Theorem c09_fifo :
+  forall w pi wss p,
+  nth_error (w_pools w) pi = Some p -> pool_bound p ->
+  let '(w', o) := dispatch w pi wss in
+  raised o = false ->
+  exists p', nth_error (w_pools w') pi = Some p' /\ pl_buffer p = sent_of o ++ pl_buffer p'.
+Proof. exact dispatch_sends_queue_prefix. Qed.
+Print Assumptions c09_fifo.
+
+(* Bound: a pool never holds more than max(1, buffer_size) undelivered events
+   (buffer_size >= 1 is enforced by the configuration parser; with 0 the code
+   behaves as with 1). *)
+Theorem c09_bound :
+  forall h maxdig pools maxint gs ops,
+  Forall (fun p => pl_buffer p = []) pools ->
+  Forall (fun p => Z.of_nat (length (pl_buffer p)) <= Z.max 1 (pl_bufsize p))
+         (w_pools (fst (wrun h maxdig (new_world pools maxint gs) ops))).
+Proof. exact bound_always. Qed.
+Print Assumptions c09_bound.
+
+(* Overflow: _acceptEvent drops at most one event, the head of the queue, only
+   when the queue is full, and reports it (EDiscard = the error log line); the
+   accepted event goes to the tail, a re-buffered one to the head. *)
+Theorem c09_overflow :
+  forall w pi e head p x,
+  nth_error (w_pools w) pi = Some p -> ev_lookup (w_events w) e = Some x ->
+  let '(w', o) := accept_event w pi e head in
+  exists p', nth_error (w_pools w') pi = Some p' /\
+    (if pl_bufsize p <=? Z.of_nat (length (pl_buffer p)) then
+       match pl_buffer p with
+       | d :: rest => o = [EDiscard pi d] /\ pl_buffer p' = (if head then e :: rest else rest ++ [e])
+       | [] => o = [] /\ pl_buffer p' = [e]
+       end
+     else o = [] /\ pl_buffer p' = (if head then e :: pl_buffer p else pl_buffer p ++ [e])).
+Proof. exact accept_event_overflow. Qed.
+Print Assumptions c09_overflow.
+
+(* No loss: from freshly constructed pools, over any history of emitted events,
+   listener output, write events, spawns, stops, deaths and dispatch passes in
+   which no exception escaped: for every pool and event,
+   accepted = buffered + in flight + acknowledged OK + discarded by overflow. *)
+Theorem c09_no_loss :
+  forall h maxdig cfgs maxint gs ops pi e,
+  let '(w', o) := wrun h maxdig (new_world (map pool_of_cfg cfgs) maxint gs) ops in
+  raised o = false ->
+  n_offered pi e o = (held pi e w' + n_acked pi e o + n_discard pi e o)%nat.
+Proof. exact no_loss_always. Qed.
+Print Assumptions c09_no_loss.
+
+(* A rejection (FAIL, protocol violation, handler error, death) concerns the
+   owner's pool only - whatever the subscription table contains - ... *)
+Theorem c09_reject_isolated :
+  forall owner i e cbs w,
+  let '(w', o) := notify_cbs cbs w T_EventRejectedEvent (NRejected owner i e) in
+  (forall pj, pj <> owner -> nth_error (w_pools w') pj = nth_error (w_pools w) pj) /\
+  rebuffered_elsewhere owner o = false.
+Proof. exact reject_isolated. Qed.
+Print Assumptions c09_reject_isolated.
+
+(* ... and puts the event back at the head of the owner's queue, once. *)
+Theorem c09_reject_to_head :
+  forall w pi e p x,
+  nth_error (w_pools w) pi = Some p -> ev_lookup (w_events w) e = Some x ->
+  let '(w', o) := handle_rejected w pi pi (Some e) in
+  exists p', nth_error (w_pools w') pi = Some p' /\ hd_error (pl_buffer p') = Some e /\
+             rebuffered_count pi e o = 1%nat.
+Proof. exact reject_to_head. Qed.
+Print Assumptions c09_reject_to_head.
